@@ -31,6 +31,16 @@ def b_swallow(*a, **k):
             pass
 
 
+def b_stop_when_asked(*a, **k):
+    # reacts to the request by stopping its whole process (SIGSTOP): it becomes stopped *after* the child's control
+    # thread has acknowledged the request
+    while True:
+        try:
+            time.sleep(0.005)
+        except Exception:
+            os.kill(os.getpid(), signal.SIGSTOP)
+
+
 def b_sleep(*a, **k):
     time.sleep(1000)
 
@@ -43,7 +53,7 @@ def b_quick(*a, **k):
     return 1
 
 
-BEH = {'coop': b_coop, 'swallow': b_swallow, 'sleep': b_sleep, 'hog': b_hog, 'stopped': b_coop, 'finished': b_quick, 'notrun': b_quick}
+BEH = {'stops': b_stop_when_asked, 'coop': b_coop, 'swallow': b_swallow, 'sleep': b_sleep, 'hog': b_hog, 'stopped': b_coop, 'finished': b_quick, 'notrun': b_quick}
 
 
 def pid_state(pid):
